@@ -202,6 +202,14 @@ def _build_new_state(con, pc, clauses_fn_result, lineno):
     plain = []
     # havoc first so that clauses evaluated lazily see fresh symbols
     for fname in con.modifies:
+        if fname not in s.f and con.is_init and hasattr(pc.lib, "schema"):
+            sch = pc.lib.schema(pc.cls)
+            if fname in sch:
+                s.f[fname] = V.mk_value("%s.%s!%d" % (tag, fname, logic._fresh_ctr[0]), sch[fname])
+                logic._fresh_ctr[0] += 1
+                if isinstance(s.f[fname], V.VDyn):
+                    s.assume(s.f[fname].well_formed())
+                continue
         if fname in s.f:
             s.f[fname] = _fresh_like(s.f[fname], "%s.%s!%d" % (tag, fname, logic._fresh_ctr[0]))
             logic._fresh_ctr[0] += 1
